@@ -758,6 +758,78 @@ def extract_choose(mod):
     return "\n".join(out) + "\n"
 
 
+
+# ----------------------------------------------------------------------------------------------
+# the two comparisons that end the loops of generation: the grow loop of a stochastic object and the ensemble loop of a system
+
+_CMP_LEAN = {ast.Gt: ">", ast.GtE: "≥", ast.Lt: "<", ast.LtE: "≤"}
+
+
+def _walk_functions(node, name):
+    for n in ast.walk(node):
+        if isinstance(n, ast.FunctionDef) and n.name == name:
+            return n
+    raise Unsupported(f"function {name} not found")
+
+
+def extract_loops():
+    st = _parse("stochastic.py")
+    fn = _walk_functions(_find_class(st, "Stochastic"), "generate_repeat_units_and_finalize")
+    loops = [n for n in ast.walk(fn) if isinstance(n, ast.While)]
+    if len(loops) != 1:
+        raise Unsupported("one while loop expected in generate_repeat_units_and_finalize")
+    loop = loops[0]
+    if not (isinstance(loop.test, ast.Constant) and loop.test.value is True):
+        raise Unsupported("`while True` expected for the grow loop")
+    # the names of the starting mass and of the target
+    start_name = target_name = None
+    for n in fn.body:
+        if isinstance(n, ast.Assign) and len(n.targets) == 1 and isinstance(n.targets[0], ast.Name):
+            v = n.value
+            if isinstance(v, ast.Call) and isinstance(v.func, ast.Attribute) and v.func.attr == "draw_mw":
+                target_name = n.targets[0].id
+            elif (isinstance(v, ast.Call) and isinstance(v.func, ast.Attribute) and v.func.attr == "HeavyAtomMolWt") or \
+                    (isinstance(v, ast.Attribute) and v.attr == "weight"):
+                start_name = n.targets[0].id
+    if start_name is None or target_name is None:
+        raise Unsupported("starting mass / drawn target not found in front of the grow loop")
+    breaks = [n for n in loop.body if isinstance(n, ast.If) and len(n.body) == 1 and isinstance(n.body[0], ast.Break) and not n.orelse]
+    if not breaks or loop.body[-1] is not breaks[-1]:
+        raise Unsupported("the grow loop must end with `if <mass test>: break`")
+    t = breaks[-1].test
+    if not (isinstance(t, ast.Compare) and len(t.ops) == 1 and type(t.ops[0]) in _CMP_LEAN):
+        raise Unsupported("comparison expected in the mass test of the grow loop")
+    left, right = t.left, t.comparators[0]
+    ok_left = isinstance(left, ast.BinOp) and isinstance(left.op, ast.Sub) and isinstance(left.right, ast.Name) and left.right.id == start_name and \
+        ((isinstance(left.left, ast.Call) and isinstance(left.left.func, ast.Attribute) and left.left.func.attr == "HeavyAtomMolWt") or
+         (isinstance(left.left, ast.Attribute) and left.left.attr == "weight"))
+    if not (ok_left and isinstance(right, ast.Name) and right.id == target_name):
+        raise Unsupported("mass test of the grow loop: `<mass now> - <starting mass> <op> <target>` expected")
+    grow_op = _CMP_LEAN[type(t.ops[0])]
+    sy = _parse("system.py")
+    gen = _walk_functions(_find_class(sy, "System"), "generator")
+    wl = [n for n in ast.walk(gen) if isinstance(n, ast.While)]
+    if len(wl) != 1:
+        raise Unsupported("one while loop expected in System.generator")
+    t = wl[0].test
+    if not (isinstance(t, ast.Compare) and len(t.ops) == 1 and type(t.ops[0]) in _CMP_LEAN and isinstance(t.left, ast.Name)
+            and isinstance(t.comparators[0], ast.Attribute) and t.comparators[0].attr == "system_mass"):
+        raise Unsupported("`while <accumulated mass> <op> self.system_mass` expected in System.generator")
+    acc_name = t.left.id
+    grows = [n for n in ast.walk(wl[0]) if isinstance(n, ast.AugAssign) and isinstance(n.target, ast.Name) and n.target.id == acc_name and isinstance(n.op, ast.Add)]
+    if len(grows) != 1:
+        raise Unsupported("the accumulated mass must grow by one `+=` per member")
+    sys_op = _CMP_LEAN[type(t.ops[0])]
+    return (
+        "/-- `if <mass now> - starting_mol_weight " + grow_op + " target_mol_weight: break` at the end of the `while True` loop of\n"
+        "`Stochastic.generate` (stochastic.py): growth stops after the unit that makes this true. -/\n"
+        f"@[reducible] def growStopsX (added target : Rat) : Prop := added {grow_op} target\n"
+        f"instance (added target : Rat) : Decidable (growStopsX added target) := inferInstanceAs (Decidable (added {grow_op} target))\n\n"
+        "/-- `while generated_total_mass " + sys_op + " self.system_mass` of `System.generator` (system.py): another member is generated while this is true. -/\n"
+        f"@[reducible] def sysContinuesX (acc M : Rat) : Prop := acc {sys_op} M\n"
+        f"instance (acc M : Rat) : Decidable (sysContinuesX acc M) := inferInstanceAs (Decidable (acc {sys_op} M))\n")
+
+
 def _part_bond():
     bond = _parse("bond.py")
     return extract_is_compatible(bond) + "\n" + extract_order_chain(bond) + "\n" + extract_compat_text(bond)
@@ -771,6 +843,7 @@ PARTS = [
     ("FFCache", "ffcache", lambda: extract_ff_cache(_parse("forcefield_helper.py"))),
     ("FFTables", "fftables", extract_ff_tables),
     ("Choose", "choose", lambda: extract_choose(_parse("core.py"))),
+    ("Loops", "loops", extract_loops),
 ]
 
 
